@@ -1,1 +1,120 @@
-From KV Require Import Model.C09.
+(* C09 — Retry participant selection respects seat bounds and is deterministic.
+   ONLY property statements; proofs are in Proofs/C09.v and Proofs/GoRand.v. *)
+From Coq Require Import ZArith NArith List Permutation Sorted.
+From KV Require Import Common.GoRand Model.C09 Proofs.GoRand Proofs.C09.
+Import ListNotations.
+Open Scope Z_scope.
+
+(* [l] is a sub-list of [seats] that keeps or drops each operator's seats together *)
+Definition whole_operator_sublist (seats l : list N) : Prop :=
+  exists keep : N -> bool, l = filter keep seats.
+
+(* ---- for EVERY permutation source and EVERY map iteration order ---- *)
+
+(* signing retry: never panics, errs exactly when too many seats are requested, otherwise
+   returns a whole-operator sub-list with at least [count] seats *)
+Theorem signing_sound :
+  forall (rngT : Type) (mkrng : Z -> rngT) (shuffle : forall A : Type, rngT -> list A -> list A)
+         (iter : list N -> list N),
+    (forall A g l, Permutation (shuffle A g l) l) ->
+    (forall l, Permutation (iter l) l) ->
+    forall seats seed retry count,
+      match signing rngT mkrng shuffle iter seats seed retry count with
+      | Ok l => whole_operator_sublist seats l /\ Z.of_N count <= len l
+      | ErrTooMany => len seats < Z.of_N count
+      | ErrRetry | Panic => False
+      end.
+Proof. exact Proofs.C09.signing_sound. Qed.
+Print Assumptions signing_sound.
+
+(* key-generation retry: same, and the excluded operators are those of [exclusion] *)
+Theorem keygen_sound :
+  forall (rngT : Type) (mkrng : Z -> rngT) (shuffle : forall A : Type, rngT -> list A -> list A)
+         (iter : list N -> list N),
+    (forall A g l, Permutation (shuffle A g l) l) ->
+    (forall l, Permutation (iter l) l) ->
+    forall seats seed retry count,
+      match keygen rngT mkrng shuffle iter seats seed retry count with
+      | Ok l => whole_operator_sublist seats l /\ Z.of_N count <= len l /\
+                exists ex, exclusion rngT shuffle iter seats (mkrng seed) retry (Z.of_N count) = Some ex /\
+                           l = filter (fun o => negb (memN o ex)) seats
+      | ErrTooMany => len seats < Z.of_N count
+      | ErrRetry => exclusion rngT shuffle iter seats (mkrng seed) retry (Z.of_N count) = None
+      | Panic => False
+      end.
+Proof. exact Proofs.C09.keygen_sound. Qed.
+Print Assumptions keygen_sound.
+
+(* enumeration: the exclusions at distinct retries are distinct sets (strictly sorted lists)
+   of 1, 2 or 3 operators, sizes never decrease with the retry number, and once the retries
+   are used up they stay used up *)
+Theorem keygen_enumeration :
+  forall (rngT : Type) (shuffle : forall A : Type, rngT -> list A -> list A)
+         (iter : list N -> list N),
+    (forall A g l, Permutation (shuffle A g l) l) ->
+    (forall l, Permutation (iter l) l) ->
+    forall seats g count r1 r2,
+      (r1 < r2)%N ->
+      match exclusion rngT shuffle iter seats g r1 count,
+            exclusion rngT shuffle iter seats g r2 count with
+      | Some e1, Some e2 =>
+          StronglySorted N.lt e1 /\ StronglySorted N.lt e2 /\
+          (1 <= length e1 <= 3)%nat /\ (length e1 <= length e2 <= 3)%nat /\ e1 <> e2
+      | Some e1, None => StronglySorted N.lt e1 /\ (1 <= length e1 <= 3)%nat
+      | None, Some _ => False
+      | None, None => True
+      end.
+Proof. exact Proofs.C09.keygen_enumeration. Qed.
+Print Assumptions keygen_enumeration.
+
+(* every eligible single operator, pair and triplet is excluded at some retry *)
+Theorem keygen_enumeration_complete :
+  forall (rngT : Type) (shuffle : forall A : Type, rngT -> list A -> list A)
+         (iter : list N -> list N),
+    (forall A g l, Permutation (shuffle A g l) l) ->
+    (forall l, Permutation (iter l) l) ->
+    forall seats g count,
+      (forall o, In o (singles iter seats count) ->
+                 exists r, exclusion rngT shuffle iter seats g r count = Some [o]) /\
+      (forall a b, In (a, b) (pairs iter seats count) ->
+                   exists r, exclusion rngT shuffle iter seats g r count = Some [a; b]) /\
+      (forall a b c, In (a, b, c) (triples iter seats count) ->
+                     exists r, exclusion rngT shuffle iter seats g r count = Some [a; b; c]).
+Proof. exact Proofs.C09.keygen_enumeration_complete. Qed.
+Print Assumptions keygen_enumeration_complete.
+
+(* "identical on every node": the only nondeterminism of the Go code is map iteration, and
+   the result does not depend on it *)
+Theorem map_order_irrelevant :
+  forall (rngT : Type) (mkrng : Z -> rngT) (shuffle : forall A : Type, rngT -> list A -> list A)
+         (iter iter' : list N -> list N),
+    (forall l, Permutation (iter l) l) ->
+    (forall l, Permutation (iter' l) l) ->
+    forall seats seed retry count,
+      signing rngT mkrng shuffle iter seats seed retry count =
+      signing rngT mkrng shuffle iter' seats seed retry count /\
+      keygen rngT mkrng shuffle iter seats seed retry count =
+      keygen rngT mkrng shuffle iter' seats seed retry count.
+Proof. exact Proofs.C09.map_order_irrelevant. Qed.
+Print Assumptions map_order_irrelevant.
+
+(* ---- the concrete permutation source: the model of Go's math/rand ---- *)
+Theorem go_shuffle_is_permutation :
+  forall (A : Type) (g : rng) (l : list A), Permutation (Concrete.shuffle A g l) l.
+Proof. exact Proofs.GoRand.shuffle_with_perm. Qed.
+Print Assumptions go_shuffle_is_permutation.
+
+(* ---- the executable form used by the correspondence check is sound and holds of the model ---- *)
+Theorem out_ok_sound :
+  forall seats count l,
+    out_ok seats count (Ok l) = true ->
+    whole_operator_sublist seats l /\ Z.of_N count <= len l.
+Proof. exact Proofs.C09.out_ok_sound. Qed.
+Print Assumptions out_ok_sound.
+
+Theorem model_outputs_pass_spec :
+  forall seats seed retry count,
+    out_ok seats count (Concrete.signing seats seed retry count) = true /\
+    out_ok seats count (Concrete.keygen seats seed retry count) = true.
+Proof. exact Proofs.C09.model_outputs_pass_spec. Qed.
+Print Assumptions model_outputs_pass_spec.
